@@ -281,10 +281,17 @@ def rot0 (m : M6 α) : QL α :=
 /-- `gridSign(a,b) (b >= 0 ? ABS(a) : -ABS(a))` -/
 @[inline] def gridSign (a b : α) : α := if Scalar.le zero b then cabs a else -. (cabs a)
 
+/-- SWITCH for the two convergence tests of `ref_matrix_diag_m` (the only place it is used is `QL.isSmall`).
+    `false`: the tests as they are in /repo, `ABS(tst2 - tst1) < 1.0e-14` (absolute threshold);
+    `true` : the proposed fix `ABS(tst2 - tst1) <= 1.0e-14 * tst1` (relative threshold).
+    The theorems of `Props/C16.lean` are proved for both settings. -/
+def relativeConvergence : Bool := false
+
 /-- `tst2 = tst1 + ABS(e[mm]); ABS(tst2 - tst1) < 1.0e-14` -/
 def QL.isSmall (st : QL α) (mm : Nat) : Bool :=
   let tst2 := st.tst1 +. cabs (st.getE mm)
-  Scalar.lt (cabs (tst2 -. st.tst1)) (Scalar.ofDec 1 (-14))
+  if relativeConvergence then Scalar.le (cabs (tst2 -. st.tst1)) (Scalar.ofDec 1 (-14) *. st.tst1)
+  else Scalar.lt (cabs (tst2 -. st.tst1)) (Scalar.ofDec 1 (-14))
 
 /-- `for (mm = l; mm < 3; mm++) if small break;`  (`n` = 3 - mm); returns 3 when the loop falls through -/
 def QL.findSmall (st : QL α) : Nat → Nat → Nat
